@@ -219,12 +219,108 @@ func (s *Spec) LALRParsingTable() (T *lr.ParsingTable, err error) {
 		}
 	}()
 
+	// Such grammars are reported up front: what the table builder does with them differs from run to run.
+	if A, ok := unproductiveNonTerminal(s.Grammar); ok {
+		return nil, fmt.Errorf("error on building LALR(1) parsing table:\nnon-terminal %s does not derive any string of terminals", A)
+	}
+
+	if A, ok := cyclicNonTerminal(s.Grammar); ok {
+		return nil, fmt.Errorf("error on building LALR(1) parsing table:\nthe grammar is cyclic, hence ambiguous: %s derives itself", A)
+	}
+
 	T, err = lookahead.BuildParsingTable(s.Grammar, s.Precedences)
 	if err != nil {
 		return nil, fmt.Errorf("error on building LALR(1) parsing table:\n%s", err)
 	}
 
 	return T, nil
+}
+
+// unproductiveNonTerminal returns the first non-terminal, if any, that does not derive any string of terminals.
+func unproductiveNonTerminal(G *grammar.CFG) (grammar.NonTerminal, bool) {
+	prods := generic.Collect1(G.Productions.All())
+	sort.Quick(prods, grammar.CmpProduction)
+
+	productive := map[grammar.NonTerminal]bool{}
+	for changed := true; changed; {
+		changed = false
+
+		for _, p := range prods {
+			if productive[p.Head] {
+				continue
+			}
+
+			all := true
+			for _, X := range p.Body {
+				if A, ok := X.(grammar.NonTerminal); ok && !productive[A] {
+					all = false
+				}
+			}
+
+			if all {
+				productive[p.Head], changed = true, true
+			}
+		}
+	}
+
+	for _, p := range prods {
+		if !productive[p.Head] {
+			return p.Head, true
+		}
+	}
+
+	return "", false
+}
+
+// cyclicNonTerminal returns the first non-terminal A, if any, with a derivation A ⇒⁺ A.
+func cyclicNonTerminal(G *grammar.CFG) (grammar.NonTerminal, bool) {
+	prods := generic.Collect1(G.Productions.All())
+	sort.Quick(prods, grammar.CmpProduction)
+
+	nullable := G.NullableNonTerminals()
+
+	// A → B if A ⇒ B in one step, the other symbols of the body deriving the empty string.
+	unit := map[grammar.NonTerminal][]grammar.NonTerminal{}
+	for _, p := range prods {
+		for i, X := range p.Body {
+			B, ok := X.(grammar.NonTerminal)
+			if !ok {
+				continue
+			}
+
+			rest := true
+			for j, Y := range p.Body {
+				if C, ok := Y.(grammar.NonTerminal); j != i && (!ok || !nullable.Contains(C)) {
+					rest = false
+				}
+			}
+
+			if rest {
+				unit[p.Head] = append(unit[p.Head], B)
+			}
+		}
+	}
+
+	for _, p := range prods {
+		visited := map[grammar.NonTerminal]bool{}
+		for stack := []grammar.NonTerminal{p.Head}; len(stack) > 0; {
+			A := stack[len(stack)-1]
+			stack = stack[:len(stack)-1]
+
+			for _, B := range unit[A] {
+				if B == p.Head {
+					return p.Head, true
+				}
+
+				if !visited[B] {
+					visited[B] = true
+					stack = append(stack, B)
+				}
+			}
+		}
+	}
+
+	return "", false
 }
 
 // GLRParsingTable builds and returns the GLR(1) (Canonical LR a.k.a. Generalized LR) parsing table
